@@ -9,7 +9,7 @@ Not decided: "after the timeout and not before" (time).
 """
 import re
 from paths import refine_cuts, region_uncovered
-from common import short, field_calls
+from common import closure_returns, closure_operand, short, field_calls
 import guards
 from common import slice_locals
 import k11
@@ -128,7 +128,18 @@ def r09_2(ctx, fx):
                 allc = ds and all(k == "assign" and pl["rv"]["r"] == "use" and "k" in pl["rv"]["o"] for n, k, pl in ds)
                 if allc and trues and tests and all(any(fn.only_via(n, sw, [t]) for sw, t, f in tests) for n in trues):
                     ok = True
-        ctx.ob("R09.2", "SubstreamKeepAlive::then/is-(self==Yes).then(f)", ok and len(thens) == 1, site=fn.site(fn.entry), cfg=fx.cfg)
+        okm = False
+        if not thens:
+            # the same function written as a match / if: `Some(f())` exactly on the Yes edge of a test of self, `None` otherwise
+            tests = keepalive_eq_edges(fn)
+            somes = [n for n, sh in fn.ret_sites() if all(x.startswith("Some") for x in sh)]
+            nones = [n for n, sh in fn.ret_sites() if all(x == "None" for x in sh)]
+            mixed = [n for n, sh in fn.ret_sites() if n not in somes and n not in nones]
+            yes = {(sw, t) for sw, t, f in tests}
+            no = {(sw, f) for sw, t, f in tests}
+            okm = bool(tests) and bool(somes) and bool(nones) and not mixed and all(n not in fn.reach([fn.entry], cut=yes) for n in somes) \
+                and all(n not in fn.reach([fn.entry], cut=no) for n in nones)
+        ctx.ob("R09.2", "SubstreamKeepAlive::then/is-(self==Yes).then(f)", (ok and len(thens) == 1) or okm, site=fn.site(fn.entry), cfg=fx.cfg)
     else:
         ctx.anchor("R09.2", "SubstreamKeepAlive::then", 0, 1, cfg=fx.cfg)
     # transports: lifetime permit of a substream = keep_alive.then(|| opening_permit.clone())
@@ -266,6 +277,31 @@ def r09_6(ctx, fx):
                 if m and int(m.group(1)) in ids and e.dest:
                     eqs.append((e, ids[int(m.group(1))]))
         acts = [c for c in fn.calls(r"ConnectionHandle::%s$" % act) if not c.from_macro]
+        # iterator form: `once(&mut primary).chain(secondary.iter_mut()).find(|h| h.connection_id() == id)` and one action on what was found
+        finds = []
+        for c in fn.calls(r"Iterator>?::find$"):
+            cl = closure_operand(fx, fn, c.args[1]) if len(c.args) > 1 else None
+            if cl is None:
+                continue
+            rets = closure_returns(cl)
+            if not (rets and all(r is not None and r[0] == 1 and r[1].matches(r"::eq$") for r in rets)):
+                continue
+            e = rets[0][1]
+            cid = cl.calls(r"ConnectionHandle::connection_id$")
+            elem_ok = any(cid and ("call", cid[0].name) in cl.roots(a) and any(x.startswith("param:_2") for x in guards.rootstrs(cl, a)) for a in e.args)
+            capt_ok = any(all(x.startswith("param:_1") for x in guards.rootstrs(cl, a)) and guards.rootstrs(cl, a) for a in e.args)
+            if elem_ok and capt_ok:
+                ctx.bodies.add((fx.cfg, cl.key))
+                finds.append(c)
+        if finds and len(acts) == 1 and any(("call", f_.name) in fn.roots(acts[0].args[0]) for f_ in finds):
+            srcs = guards.rootstrs(fn, finds[0].args[0])
+            both = any(re.search(r"\.primary\b", x) for x in srcs) and any(re.search(r"\.secondary\b", x) for x in srcs)
+            n += 2
+            ctx.ob("R09.6", "ConnectionContext::%s/%s#0-on-the-handle-whose-id-matched" % (meth, act), True, site=fn.site(acts[0].node), cfg=fx.cfg,
+                   detail="the action is applied to the handle that `find(|h| h.connection_id() == id)` returned")
+            ctx.ob("R09.6", "ConnectionContext::%s/both-handles-handled" % meth, both, site=fn.site(fn.entry), cfg=fx.cfg,
+                   detail="the searched iterator covers: %s" % sorted(x for x in srcs if "primary" in x or "secondary" in x))
+            continue
         for i, a in enumerate(acts):
             n += 1
             ok = False
